@@ -58,6 +58,9 @@ def type_narrow(sid: Sid) -> Sid:
         sid with applied configured queries
     """
 
+    if sid.string.count("?"):  # a query was refused by this type: narrowing must not override it.
+        return sid
+
     query = basetyped_search_narrowing.get(sid.basetype, "")
     if query:
         sid = sid.get_with(query=query)
